@@ -179,8 +179,14 @@ Definition calc_element_merge (all_b : list ckey) (ka kb : ckey) : res action :=
    let* s := find_sibling_defref (k_name ka) da all_b in
    Val (match s with Some sib => MergeUnequal sib | None => AOnly end))%res.
 
+(* find_merge_partner(parent, elem): the sub-element of parent that elem would be merged with *)
+Definition find_merge_partner (l : list ckey) (k : ckey) : res (option id) :=
+  (let* ident := k_ident k in
+   if ident then let* it := k_item k in find_sibling_item (k_name k) it l
+   else let* d := k_defref k in find_sibling_defref (k_name k) d l)%res.
+
 (* the decision of one iteration of the while loop; pos_a = index of elem_a among the sub-elements of parent_a *)
-Definition merge_action (all_b : list ckey) (splitable : bool) (pos_a : N) (ka kb : ckey) : res (out action) :=
+Definition merge_action (all_a all_b : list ckey) (splitable : bool) (pos_a : N) (ka kb : ckey) : res (out action) :=
   if k_name ka =? k_name kb then
     (let* ident := k_ident ka in
      if ident then calc_identifiables_merge all_b ka kb splitable
@@ -194,7 +200,16 @@ Definition merge_action (all_b : list ckey) (splitable : bool) (pos_a : N) (ka k
        match ib with
        | None => Pan "autosarmodel.rs merge_element: find_sub_element(elem_b.element_name(), u32::MAX).unwrap()"
        | Some indices_b =>
-         Val (OK (match lex_cmp indices_a indices_b with Lt => AOnly | _ => BOnly pos_a end))
+         let* pa := find_merge_partner all_b ka in
+         match pa with
+         | Some sibling => Val (OK (MergeUnequal sibling))
+         | None =>
+           let* pb := find_merge_partner all_a kb in
+           match pb with
+           | Some _ => Val (OK AOnly)
+           | None => Val (OK (match lex_cmp indices_a indices_b with Lt => AOnly | _ => BOnly pos_a end))
+           end
+         end
        end
      end)%res.
 
@@ -204,27 +219,27 @@ Record walked := mkWalked { wk_merge : list (id * id); wk_a_only : list id; wk_b
 
 (* the positional two-pointer walk of merge_element, including the two loops that drain the iterator that is left.
    elem_count = parent_a.content.len().  One unit of fuel per iteration (every iteration advances one side). *)
-Fixpoint walk (fuel : nat) (all_b : list ckey) (splitable : bool) (elem_count : N) (pos_a : N) (la lb : list ckey)
+Fixpoint walk (fuel : nat) (all_a all_b : list ckey) (splitable : bool) (elem_count : N) (pos_a : N) (la lb : list ckey)
          (acc : walked) {struct fuel} : res (out walked) :=
   match fuel with
   | O => Fuel
   | S f =>
     match la, lb with
     | ka :: la', kb :: lb' =>
-      (let* act := merge_action all_b splitable pos_a ka kb in
+      (let* act := merge_action all_a all_b splitable pos_a ka kb in
        match act with
        | ER e => Val (ER e)
        | OK MergeEqual =>
-         walk f all_b splitable elem_count (pos_a + 1) la' lb'
+         walk f all_a all_b splitable elem_count (pos_a + 1) la' lb'
               (mkWalked (wk_merge acc ++ [(k_id ka, k_id kb)]) (wk_a_only acc) (wk_b_only acc))
        | OK (MergeUnequal other_b) =>
-         walk f all_b splitable elem_count (pos_a + 1) la' lb
+         walk f all_a all_b splitable elem_count (pos_a + 1) la' lb
               (mkWalked (wk_merge acc ++ [(k_id ka, other_b)]) (wk_a_only acc) (wk_b_only acc))
        | OK AOnly =>
-         walk f all_b splitable elem_count (pos_a + 1) la' lb
+         walk f all_a all_b splitable elem_count (pos_a + 1) la' lb
               (mkWalked (wk_merge acc) (wk_a_only acc ++ [k_id ka]) (wk_b_only acc))
        | OK (BOnly position) =>
-         walk f all_b splitable elem_count pos_a la lb'
+         walk f all_a all_b splitable elem_count pos_a la lb'
               (mkWalked (wk_merge acc) (wk_a_only acc)
                         (if merged_b (wk_merge acc) (k_id kb) then wk_b_only acc else wk_b_only acc ++ [(k_id kb, position)]))
        end)%res
@@ -284,7 +299,7 @@ Fixpoint merge_element (fuel : nat) (parent_a : id) (files : list N) (parent_b :
      let min_ver_b := match nth_opt (w_files w) (N.to_nat new_file) with Some x => f_version x | None => LATEST end in
      let version := N.min min_ver_a min_ver_b in
      do splitable <- wl (splittable_in T pty version);
-     do wk <- (fun w0 => match walk (S (List.length la + List.length lb)) lb splitable (N.of_nat (List.length (n_content na))) 0 la lb
+     do wk <- (fun w0 => match walk (S (List.length la + List.length lb)) la lb splitable (N.of_nat (List.length (n_content na))) 0 la lb
                                       (mkWalked [] [] []) with
                          | Val o => Val (o, w0) | Pan s => Pan s | Fuel => Fuel end);
      restrict_a_only (wk_a_only wk) files;;
@@ -316,7 +331,34 @@ Definition ident_live (w : world) (x : model) (key : list N) : option id :=
   | None => None
   end.
 
-(* the loop over parser.identifiables (oldest first) with the overlap check in the middle *)
+(* the overlap check that runs before anything is modified (fix 9d6ce2a): every path of the new data (oldest first)
+   against the model's index, else against the first element of the new data with that path *)
+Fixpoint overlap_check (w : world) (x : model) (t : itree) (l : list (list N * list nat)) (new_paths : list (list N * N))
+  : res bool :=
+  match l with
+  | [] => Val false
+  | (key, pos) :: r =>
+    match it_at t pos with
+    | None => Pan "Load: parser position does not denote an element"
+    | Some value =>
+      match w_nodes w value with
+      | None => Pan "dangling node id"
+      | Some vn =>
+        let new_name := n_name vn in
+        let existing_name :=
+          match ident_live w x key with
+          | Some existing => match w_nodes w existing with Some en => Some (n_name en) | None => None end
+          | None => assoc_get key new_paths
+          end in
+        match existing_name with
+        | Some nm => if negb (nm =? new_name) then Val true else overlap_check w x t r new_paths
+        | None => overlap_check w x t r (new_paths ++ [(key, new_name)])
+        end
+      end
+    end
+  end.
+
+(* the loop over parser.identifiables (oldest first): a path that is already present keeps its first element *)
 Fixpoint fill_identifiables (m : N) (t : itree) (l : list (list N * list nat)) : W unit :=
   match l with
   | [] => wret tt
@@ -327,10 +369,7 @@ Fixpoint fill_identifiables (m : N) (t : itree) (l : list (list N * list nat)) :
       (do w <- wget;
        do x <- get_model m;
        match ident_live w x key with
-       | Some existing =>
-         do en <- get_node existing;
-         do vn <- get_node value;
-         if negb (n_name en =? n_name vn) then wfail OverlappingDataError else fill_identifiables m t r
+       | Some _ => fill_identifiables m t r
        | None => add_identifiable m key value;; fill_identifiables m t r
        end)%W
     end
@@ -354,6 +393,9 @@ Definition load_parsed (m : N) (filename : list N) (root : Parser.etree) (st : P
    let root_element := it_id t in
    let fid := N.of_nat (List.length (w_files w0)) in
    do w1 <- wget;
+   do x0 <- get_model m;
+   do overlap <- wl (overlap_check w1 x0 t (rev (Parser.p_idents st)) []);
+   if overlap then kill_unreachable base [];; wfail OverlappingDataError else
    wput (mkWorld (w_nodes w1) (w_next w1) (w_files w1 ++ [mkFile m filename (Parser.p_version st) (Parser.p_standalone st)]) (w_models w1));;
    do x <- get_model m;
    do r <- wcatch
